@@ -7,22 +7,7 @@
 #include "wire.h"
 #include <zlib.h>
 
-struct cli_view {
-	int out_len, out_sentlen, out_offset, out_seqno, out_fragment;
-	int in_len, in_seqno, in_fragment;
-	int resent, chunkid, prev, prev2;
-	long ping_soon, lastdown, sendcnt, recvcnt;
-	int lazy, selecttimeout, rand_seed, running, dns;
-	const unsigned char *out_data, *in_data;
-};
-void cli_view(struct cli_view *v);
-void cli_setup_tunnel(int selecttimeout_v, unsigned short chunkid_v, unsigned short seed_v, long now);
-int cli_tunnel_tun(void);
-int cli_tunnel_dns(void);
-void cli_watchdog(void);
-int cli_running(void);
-int cli_reads_tun(void);
-void cli_timeout(void);
+#include "digest.inc"
 
 int __wrap_compress2(unsigned char *dest, unsigned long *destLen, const unsigned char *source, unsigned long sourceLen, int level);
 int __wrap_compress2(unsigned char *dest, unsigned long *destLen, const unsigned char *source, unsigned long sourceLen, int level)
@@ -48,16 +33,6 @@ int __wrap_uncompress(unsigned char *dest, unsigned long *destLen, const unsigne
 	return Z_OK;
 }
 
-static unsigned int fnv_add(unsigned int h, const unsigned char *b, size_t n)
-{
-	size_t i;
-	for (i = 0; i < n; i++) {
-		h ^= b[i];
-		h *= 16777619u;
-	}
-	return h;
-}
-
 static char *tok(char **p)
 {
 	char *s = *p, *e;
@@ -72,7 +47,6 @@ static char *tok(char **p)
 
 static void print_all(void)
 {
-	struct cli_view v;
 	int i;
 	printf("%d", cap_count);
 	for (i = 0; i < cap_count; i++) {
@@ -84,13 +58,8 @@ static void print_all(void)
 		putchar(' ');
 		putsum(tun_written[i], tun_written_len[i]);
 	}
-	cli_view(&v);
-	printf(" | O%d/%d/%d/%d/%d/%08x I%d/%d/%d/%08x X%d C%d/%d/%d P%ld Z%d%d S%d D%ld R%d N%ld/%ld G%d",
-	       v.out_len, v.out_sentlen, v.out_offset, v.out_seqno, v.out_fragment,
-	       fnv_add(2166136261u, v.out_data, v.out_len > 0 ? (v.out_len > 65536 ? 65536 : v.out_len) : 0),
-	       v.in_len, v.in_seqno, v.in_fragment, fnv_add(2166136261u, v.in_data, v.in_len > 0 ? v.in_len : 0),
-	       v.resent, v.chunkid, v.prev, v.prev2, v.ping_soon, v.lazy, v.dns, v.selecttimeout, v.lastdown,
-	       v.rand_seed, v.sendcnt, v.recvcnt, v.running);
+	printf(" | ");
+	print_cli_state();
 }
 
 static unsigned char evbuf[MAXLINE / 2];
